@@ -96,8 +96,6 @@ Section FixpointRel.
   Variable D : T -> bool.
   (* round trip up to R *)
   Hypothesis RT : forall i, D i = true -> exists t i', emit i = Ok t /\ parse t = Ok i' /\ R i i' = true.
-  (* the domain is closed under one pass *)
-  Hypothesis CL : forall i t i', D i = true -> emit i = Ok t -> parse t = Ok i' -> D i' = true.
   (* the emitter does not see what R ignores *)
   Hypothesis RESP : forall i i', D i = true -> R i i' = true -> emit i' = emit i.
 
@@ -114,22 +112,21 @@ End FixpointRel.
 
 (* ------------------------------------------------------------------ the ReST docstring kind *)
 
-(* From the C01 ReST theorem: on any domain inside its guard.  Two obligations remain, because C01's conclusion is
-   same_interface (= C05's preserved), not equality: the domain must be closed under one pass, and the emitter
-   must give the same text to IRs that same_interface identifies (it ignores absent-vs-empty fields; the
-   spellings of None are where this can fail, hence the restriction to the domain). *)
+(* From the C01 ReST theorem: on any domain inside its guard.  One obligation remains, because C01's conclusion is
+   same_interface (= C05's preserved), not equality: the emitter must give the same text to IRs that same_interface
+   identifies (absent-vs-empty fields and the spellings of None are what it ignores; hence the restriction to a
+   domain).  What one gets is then stronger than the property: all three emissions are the same text. *)
 Theorem C08_rest_from_C01_lemma : forall D : ir -> bool,
     (forall i, D i = true -> guard_C01_rest false i = true) ->
-    (forall i t i', D i = true -> emit_rest i = Ok t -> parse_rest t = Ok i' -> D i' = true) ->
     (forall i i', D i = true -> preserved i i' = true -> emit_rest i' = emit_rest i) ->
     forall i, D i = true -> C08_rest_at i.
 Proof.
-  intros D Hin Hcl Hresp i Hi.
+  intros D Hin Hresp i Hi.
   assert (RT : forall j, D j = true -> exists t j', emit_rest j = Ok t /\ parse_rest t = Ok j' /\ preserved j j' = true).
   { intros j Hj. destruct (DocParseFacts.C01_rest_partial_lemma false j (Hin j Hj)) as [text [j' [Ht [_ [Hp Hs]]]]].
     exists text, j'. split; [exact Ht|]. split; [exact Hp|].
     rewrite <- C05Facts.same_interface_false_preserved. exact Hs. }
-  destruct (emissions_equal_rel ir str emit_rest parse_rest preserved D RT Hcl Hresp i Hi)
+  destruct (emissions_equal_rel ir str emit_rest parse_rest preserved D RT Hresp i Hi)
     as [t1 [i1 [t2 [i2 [t3 [H1 [H2 [H3 [H4 [H5 [H6 _]]]]]]]]]]].
   exists t1, i1, t2, i2, t3. repeat split; assumption.
 Qed.
